@@ -4,12 +4,12 @@ package main
 // random and templated histories. Emits one JSON case per init / shift / scan.
 
 import (
-	apiequality "k8s.io/apimachinery/pkg/api/equality"
 	"encoding/json"
-	"strconv"
 	"fmt"
 	"io"
+	apiequality "k8s.io/apimachinery/pkg/api/equality"
 	"sort"
+	"strconv"
 	"strings"
 	"time"
 
@@ -24,33 +24,34 @@ import (
 type fatalExit struct{ code int }
 
 type Hist struct {
-	r         *Rng
-	rec       *Recorder
-	k8s       *K8sSim
-	aws       *AwsSim
-	podL      *podListerSim
-	nodeL     *nodeListerSim
-	scripted  bool // a corpus scenario: no random extras beyond what the script says
-	mock      clock.Mock
-	api       []*WNode // API truth, in creation order
-	listed    []*WNode // what the node lister returns (may be stale), in lister order
-	pods      []*WPod  // API truth
-	listedP   []*WPod
-	cfgs      []controller.NodeGroupOptions
-	pcfgs     []PGroupCfg
-	globalDry bool
-	ctl       *controller.Controller
-	enc       *json.Encoder
-	nodeSeq   int
-	podSeq    int
-	instSeq   int
-	lines     int
-	stats     map[string]int
-	desc      string
-	tw        *Twin
-	twinT     int
-	realCtor  bool  // build the controller through the real NewController (slower: informer caches must sync)
-	buildErr  error // set by the provider builder when it fails (the only legitimate generic error RunOnce may return)
+	r                *Rng
+	rec              *Recorder
+	k8s              *K8sSim
+	aws              *AwsSim
+	podL             *podListerSim
+	nodeL            *nodeListerSim
+	nextRefreshFault bool // set by an event: the refresh of the next scan fails
+	scripted         bool // a corpus scenario: no random extras beyond what the script says
+	mock             clock.Mock
+	api              []*WNode // API truth, in creation order
+	listed           []*WNode // what the node lister returns (may be stale), in lister order
+	pods             []*WPod  // API truth
+	listedP          []*WPod
+	cfgs             []controller.NodeGroupOptions
+	pcfgs            []PGroupCfg
+	globalDry        bool
+	ctl              *controller.Controller
+	enc              *json.Encoder
+	nodeSeq          int
+	podSeq           int
+	instSeq          int
+	lines            int
+	stats            map[string]int
+	desc             string
+	tw               *Twin
+	twinT            int
+	realCtor         bool  // build the controller through the real NewController (slower: informer caches must sync)
+	buildErr         error // set by the provider builder when it fails (the only legitimate generic error RunOnce may return)
 }
 
 type simBuilder struct{ h *Hist }
